@@ -338,4 +338,6 @@ class ParseMCNPCell:
         elif '*' in elt:
             trcl_params = [float(x) for x in trcl_params]
             trcl_params[3:] = list(map(to_cos, trcl_params[3:12]))
+        else:
+            trcl_params = [float(x) for x in trcl_params]
         return tuple(trcl_params)
